@@ -393,12 +393,89 @@ def c11(tier, seed):
 def c12(tier, seed):
     return all_container_jobs(tier)
 
+
+def functions_covered(stats, outcomes, notes):
+    """C14: the harness's function table must name every extern prototype of the lockable containers' headers"""
+    import re, os
+    from common.driver import REPO
+    have = set()
+    for n in notes:
+        if n.startswith("functions "):
+            have |= set(n.split(":", 1)[1].split())
+    missing = []
+    for h in ("qtreetbl", "qhashtbl", "qlisttbl", "qlist", "qvector", "qqueue", "qstack", "qgrow"):
+        txt = open(os.path.join(REPO, "include/qlibc/containers/%s.h" % h)).read()
+        for fn in sorted(set(re.findall(r"extern [^;]*?\b(%s_[a-z_]+)\(" % h, txt))):
+            if fn.endswith(("_free", "_byte_cmp", "_check")):
+                continue   # free() ends every case; byte_cmp/check take no lock and run in every digest
+            if fn not in have:
+                missing.append(fn)
+    if missing:
+        return "function table does not cover: " + " ".join(missing)
+
+
+functions_covered.wants_notes = True
+
+
+FAULT_SUBJECTS = ["qtreetbl", "qhashtbl:1", "qhashtbl:2", "qlisttbl:0", "qlisttbl:1", "qlisttbl:4", "qlist", "qqueue", "qstack", "qgrow",
+                  "qvector:0", "qvector:1", "qvector:2"]
+FAULT_WRAPS = VA_WRAPS + ["pthread_mutex_trylock", "pthread_mutex_unlock", "usleep"]
+
+
+def fault_jobs(tier, which):
+    H = ["faultenum/fault.c"]
+    jobs = []
+    subs = FAULT_SUBJECTS + (["qhasharr"] if which == "C15" else ["qlog"])
+    for sname in subs:
+        for ts in ((0, 1) if which == "C15" else (1,)):
+            if sname in ("qhasharr",) and ts == 1:
+                continue
+            jobs.append(Job("fault-%s-ts%d" % (sname.replace(":", "_"), ts), H, [sname, ts], wraps=FAULT_WRAPS, weight=5))
+        if which == "C15":
+            jobs.append(Job("ctor-%s" % sname.replace(":", "_"), H, [sname, 0, "ctor"], wraps=FAULT_WRAPS, weight=1))
+    if which == "C15":
+        jobs.append(Job("ctor-qlog", H, ["qlog", 0, "ctor"], wraps=FAULT_WRAPS, weight=1))
+    return jobs
+
+
+@prop("C15", "fault_enumeration",
+      "for every container (tree table, hash table with range 1 and 2, list table plain/UNIQUE/INSERTTOP, list, queue, stack, "
+      "grow buffer, vector under the three growth policies, static hash table handle) in its plain and its thread-safe build: "
+      "every state of a small corpus x every public operation with argument classes reaching each outcome x fault plan "
+      "{fail exactly the k-th allocation inside the call, fail every allocation from the k-th on} for k = 1..N (N counted by a "
+      "dry run), plus every constructor. Oracle (differential against fault-free runs of the same code): same return value "
+      "and same container as the fault-free run, or the failure value and the container exactly as before; a fixed suffix of "
+      "operations behaves as on the fault-free reference; ledger back to its start value after free(); no crash, no "
+      "sanitizer report. non-trivial = the planned allocation failure was actually hit",
+      ["functional correctness of the fault-free run is the subject of C01-C10", "double faults other than 'all from k' are not enumerated"],
+      [need("evaluations", 10000), need("fault_hit", 5000), need("reported_failure", 1000), forbid("fault_not_hit")],
+      classes=["fault:*", "asan:*"])
+def c15(tier, seed):
+    return fault_jobs(tier, "C15")
+
+
+@prop("C14", "fault_enumeration",
+      "for every lockable container created with its thread-safe option (and the qlog object): every public function of its "
+      "method table x argument classes that reach each outcome (success, NULL/invalid argument, missing key, every index in "
+      "[-n-2, n+2], empty container, full container) x every state of the corpus x entry lock depth {0, 1 = caller holds "
+      "lock()} x allocation fault plan {none, k-th, all from k}. Oracle: a link-time wrapper of pthread_mutex_trylock/unlock "
+      "tracks the depth of the container's mutex: on return it equals the entry depth; at entry depth 0 a second thread then "
+      "tries the mutex and must get it. The harness's function table is cross-checked against the extern prototypes of the "
+      "public headers. non-trivial = the planned allocation failure was hit (or the fault-free case of a distinct function)",
+      ["lock depth is observed at pthread level, independently of the library's own counter"],
+      [need("evaluations", 10000), need("lock_depth_checks", 10000), need("probe_thread_checks", 5000), functions_covered],
+      classes=["lock:*"])
+def c14(tier, seed):
+    return fault_jobs(tier, "C14")
+
 NOT_YET = {}
 ENGINES = [
     {"name": "seqmc", "path": "engines/seqmc", "serves_properties": ["C01", "C02", "C03", "C04", "C05", "C08", "C09", "C10", "C11", "C12"],
      "kind_free_text": "explicit-state BFS over API histories of one container (state = history replayed on a fresh object, canonical key = observable structure), reference model + structural checker + sanitizer + ownership/ledger oracles on every transition"},
     {"name": "imagemc", "path": "engines/imagemc", "serves_properties": ["C06", "C07", "C11", "C12"],
      "kind_free_text": "explicit-state BFS over qhasharr memory images restored by memcpy at a different address before every transition"},
+    {"name": "faultenum", "path": "engines/faultenum", "serves_properties": ["C14", "C15"],
+     "kind_free_text": "exhaustive enumeration of (state, operation, entry lock depth, allocation-fault plan) with a differential oracle against fault-free runs and pthread-level lock-depth tracking"},
     {"name": "inputmc", "path": "engines/inputmc", "serves_properties": ["C16", "C17", "C18", "C19", "C20"],
      "kind_free_text": "bounded-exhaustive input enumeration against independent references, ASan/UBSan as oracle"},
 ]
